@@ -146,8 +146,22 @@ def search(ck, budget):
     extra = ['C[C@H](N)C(=O)O', 'F/C=C/Cl', 'F/C=C\\Cl', 'C[C@@H]1CC[C@H](C)CC1', 'CC=[C@]=CC', 'C[C@]12CC[C@H](C1)C2(C)C',
              'OC[C@H]1O[C@@H](O)[C@H](O)[C@@H](O)[C@@H]1O', 'C(/F)(\\Cl)=C(/Br)I', 'F/C=C/C=C/Cl', '[C@H](F)(Cl)Br',
              'N1[C@H](C)CC1', '[C@@]1(F)(Cl)CCO1', 'C1C[C@H]1C' ]
+    # ring-closure positions: stereocentres that carry two ring-closure digits (ring fusion, bridgehead, spiro atoms),
+    # generated systematically, plus the corpus molecules that have such a centre; these get more random spellings
+    import re
+    fused = []
+    for a in (3, 4, 5, 6):
+        for c in (3, 4, 5, 6):
+            for m1, m2 in (('@', '@'), ('@', '@@')):
+                fused.append(f'O[C{m1}]12{"C" * (a - 2)}[C{m2}]1(N){"C" * (c - 2)}2')        # fused bicycle, both fusion atoms labelled
+                fused.append(f'O[C{m1}]12{"C" * (a - 2)}[C{m2}H]1{"C" * (c - 2)}2')
+            fused.append(f'C1{"C" * (a - 2)}[C@]12{"C" * (c - 2)}O2' if a > 2 else '')        # spiro
+            fused.append(f'[C@]12(F){"C" * (a - 1)}[C@@](Cl)({"C" * (c - 1)}1)C2')             # bridged
+    fused = [s for s in fused if s]
+    fused += [s for s in corpus.stereo_smiles() if re.search(r'@@?H?\](\d|%\d\d){2}', s)][: (40 if ck.tier == 'quick' else 400)]
+    many = set(fused)
     n_ok = 0
-    for smi in extra + pool:
+    for smi in extra + fused + pool:
         rd0 = Chem.MolFromSmiles(smi)
         if rd0 is None:
             continue
@@ -161,7 +175,7 @@ def search(ck, budget):
         n_st = sum(1 for _, a in m.atoms() if a.stereo is not None) + sum(1 for *_, bd in m.bonds() if bd.stereo is not None)
         ck.count(f'rdkit:stereo_elements={min(n_st, 6)}')
         ck.case(('rdkit', smi), nontrivial=n_st > 0)
-        for k in range(3):
+        for k in range(13 if smi in many else 3):
             sp = format(m, 'r') if k else str(m)
             rd1 = Chem.MolFromSmiles(sp)
             if rd1 is None:
